@@ -8,6 +8,7 @@ sys.path.insert(0, os.path.dirname(__file__))
 from common import *
 
 THREADS = [1, 2, 4, 8, 16]
+MALLOC_DEBUG = '/lib/x86_64-linux-gnu/libc_malloc_debug.so.0'
 OPNAME = {1: 'getValue', 2: 'setValue', 3: 'getRow', 4: 'getColumn', 5: 'setRow', 6: 'setColumn', 7: 'getDiagonal', 8: 'setDiagonal',
           9: 'transposeInPlace', 90: 'transpose', 10: 'addScalar', 11: 'prodScalar', 12: 'multiplyRow', 13: 'multiplyColumn',
           14: 'divideRow', 15: 'divideColumn', 16: 'addMatInPlace', 17: 'linearCombination', 18: 'prodMatVecInPlace',
@@ -215,7 +216,7 @@ def sparse_cases(rng, n_per_op):
             m = rnd_mat(rng, nr, nc, zero_p=.35)
             for be in (0, 1):
                 st_rng = random.Random(rng.getrandbits(32))
-                style = None if op in (0, 1, 20, 21) else 'plain'
+                style = None if op in (0, 1, 12, 13, 14, 15, 20, 21) else 'plain'
                 s0, style = sparse_sx(st_rng, m, style)
                 if op == 0: add(be, op, m, [], 'M', style=style, s0=s0)
                 elif op == 1: add(be, op, m, [st_rng.randrange(nr), st_rng.randrange(nc)], 'Q', style=style, s0=s0)
@@ -490,7 +491,9 @@ def run(ctx):
         idx = [k for k, g in enumerate(gens) if nth == 1 or g['kind'] in ('dense', 'sparse', 'solve')]
         if nth > 1 and quick: idx = [k for k in idx if k % 2 == nth % 2 or gens[k]['op'] in (22, 23, 24, 20, 21)]
         cft = write_cases(ctx, 't%d' % nth, [with_threads(gens[k]['case'], nth) if gens[k]['kind'] != 'vec' else gens[k]['case'] for k in idx])
-        rc_i, impl = run_impl(ctx, exe, cft, timeout=3000)
+        # single-thread run under glibc's heap checker: an overflow of a malloc'ed block aborts at the next free()
+        env = {'LD_PRELOAD': MALLOC_DEBUG, 'MALLOC_CHECK_': '3'} if (nth == 1 and os.path.exists(MALLOC_DEBUG)) else None
+        rc_i, impl = run_impl(ctx, exe, cft, timeout=3000, env=env)
         impl_by_t[nth] = {k: (impl[p] if p < len(impl) else None) for p, k in enumerate(idx)}
     ctx.log('impl and model evaluated')
 
@@ -549,6 +552,7 @@ def run(ctx):
         for nth in THREADS[1:]:
             if k in impl_by_t[nth]:
                 it = dec(impl_by_t[nth][k], g['rtype'], undy)
+                if m[0] == 'UB': continue          # undefined behaviour is not expected to be reproducible
                 if it != i1 and not (it[0] == 'CRASH' and i1[0] == 'CRASH'):
                     tk = 'threads:' + key
                     if g['size'] < failing.get(tk, (1 << 60,))[0]:
@@ -566,7 +570,8 @@ def run(ctx):
             common = set(items[0][0])
             for q, _, _, _ in items: common &= set(q)
             passing = [set(q) for q in site_pass.get(site, []) if tuple(x for x in q if x in ('cs', 'eigen')) == be]
-            kept = [x for x in items[0][0] if x in common and (x in be or any(x not in pq for pq in passing))]
+            kept = [x for x in items[0][0] if x in common and x != 'square' and (x in be or any(x not in pq for pq in passing))]
+            if 'duplicate-entries' in kept: kept = [x for x in kept if x != 'nonsquare']
             key = site + (':' + ':'.join(kept) if kept else '')
             q, size, text, replay = min(items, key=lambda t: (t[1], len(t[3]['case'])))
             replay = dict(replay); replay['failing_cases_of_this_site'] = len(items)
